@@ -43,6 +43,26 @@ pub fn taint_check() {
     }
 }
 
+/// Runs `f` from a destructor that executes while the thread unwinds from a panic (tear-down
+/// code of a fixture after a failed test body): `std::thread::panicking()` is true inside.
+/// `f` must not unwind itself (callers catch inside).
+pub fn while_unwinding<R>(f: impl FnOnce() -> R) -> R {
+    struct TearDown<'a>(Option<Box<dyn FnOnce() + 'a>>);
+    impl Drop for TearDown<'_> {
+        fn drop(&mut self) {
+            if let Some(f) = self.0.take() {
+                f()
+            }
+        }
+    }
+    let mut out: Option<R> = None;
+    let _ = std::panic::catch_unwind(std::panic::AssertUnwindSafe(|| {
+        let _fixture = TearDown(Some(Box::new(|| out = Some(f()))));
+        panic!("the body of the test fails; the fixture's tear-down runs while the thread unwinds");
+    }));
+    out.expect("tear-down code ran")
+}
+
 pub fn last_panic() -> String {
     LAST_PANIC.with(|p| p.borrow().clone())
 }
